@@ -1,3 +1,210 @@
-// stub
-static void run_c14(Context&) {}
-template <class T> static bool c14_replay(Context&, const std::string&, const Target&, const xsv_entry*, const T*, const T*) { return true; }
+// C14: every operation terminates in bounded time: the number of iterations of the data-dependent loops
+// (hook XSIMD_VERIF_LOOP_TICK) per public call is bounded by a constant independent of the argument.
+static uint64_t g_c14_maxticks = 0;
+
+template <class T>
+static bool c14_call(Context& cx, const Target& tg, const xsv_entry* e, const T* xs, const T* ys, int64_t imm, const char* layout)
+{
+    T out[64];
+    const bool binary = ys != nullptr;
+    CallResult cr = call<T>(cx, tg, e, xs, binary ? ys : nullptr, out, imm);
+    cx.st.lane_checks++;
+    if ((uint64_t)cr.ticks > g_c14_maxticks)
+        g_c14_maxticks = (uint64_t)cr.ticks;
+    if (cr.overflowed || cr.ticks > kLoopBound)
+    {
+        std::string key = std::string(e->op) + ":" + e->type + ":" + tg.name;
+        if (!cx.has_violation(key))
+        {
+            // reduce: which single lane, broadcast, still exceeds the bound?
+            const int n = e->lanes;
+            int lane = -1;
+            T bx[64], by[64];
+            for (int l = 0; l < n && lane < 0; ++l)
+            {
+                for (int i = 0; i < n; ++i)
+                {
+                    bx[i] = xs[l];
+                    by[i] = binary ? ys[l] : (T)0;
+                }
+                CallResult c2 = call<T>(cx, tg, e, bx, binary ? by : nullptr, out, imm);
+                if (c2.overflowed || c2.ticks > kLoopBound)
+                    lane = l;
+            }
+            std::string why = cr.overflowed ? "a data-dependent loop ran more than " + std::to_string(4 * kLoopBound) + " iterations (call abandoned): the iteration count grows with the argument or never ends"
+                                            : "data-dependent loops ran " + std::to_string(cr.ticks) + " iterations, above the constant bound " + std::to_string(kLoopBound);
+            if (lane >= 0)
+                cx.add_violation(math_viol<T>(cx, e->op, tg, n, bx, binary ? by : nullptr, 0, "", "", why + " [" + layout + "; reduced to a broadcast of one argument]"));
+            else
+                cx.add_violation(math_viol<T>(cx, e->op, tg, n, xs, binary ? ys : nullptr, -1, "", "", why + " [" + layout + "; only with these companions]"));
+        }
+        return false;
+    }
+    return true;
+}
+
+template <class T>
+static std::vector<T> c14_extremes()
+{
+    using L = std::numeric_limits<T>;
+    std::vector<T> v = { (T)0, -(T)0, L::denorm_min(), -L::denorm_min(), L::min(), -L::min(), L::max(), -L::max(), L::infinity(), -L::infinity(), L::quiet_NaN(), (T)1, (T)-1, (T)0.5, (T)2.5 };
+    for (int e = L::min_exponent - L::digits; e < L::max_exponent; e += (sizeof(T) == 4 ? 1 : 3))
+    {
+        T p = std::ldexp((T)1, e);
+        v.push_back(p);
+        v.push_back(-p);
+        v.push_back(std::nextafter(p, (T)0));
+        v.push_back(-std::nextafter(p, L::infinity()));
+    }
+    for (int k = -45; k <= (sizeof(T) == 4 ? 38 : 308); k += (sizeof(T) == 4 ? 1 : 4))
+    {
+        v.push_back((T)std::pow(10.0, k));
+        v.push_back((T)-std::pow(10.0, k));
+    }
+    for (int k = 1; k <= 200; ++k)
+    {
+        v.push_back((T)-k);
+        v.push_back(std::nextafter((T)-k, (T)0));
+        v.push_back(std::nextafter((T)-k, -L::infinity()));
+        v.push_back((T)k + (T)0.5);
+    }
+    return v;
+}
+
+template <class T>
+static void c14_type(Context& cx)
+{
+    const bool thorough = cx.opt.thorough();
+    // every entry of the math shims for this type
+    std::set<std::string> ops;
+    for (auto& tg : g_targets)
+        for (auto& kv : tg.ops)
+            if (std::string(kv.second->type) == prec<T>::tn)
+                ops.insert(kv.second->op);
+    const std::vector<T> ext = c14_extremes<T>();
+    static const T comp_raw[] = { (T)0.3, (T)2, (T)50, (T)3000, (T)1e9, (T)-0.7, (T)-40, (T)-33.5, (T)7, (T)-1e9, (T)14, (T)1.3 };
+    size_t item = 0;
+    uint64_t nontriv = 0;
+    for (auto& op : ops)
+    {
+        if (!cx.opt.only_ops.empty() && !cx.opt.only_ops.count(op))
+            continue;
+        const Fn* f = mfn::find(op);
+        const bool binary = op == "pow" || op == "atan2" || op == "hypot" || op == "fmod" || op == "remainder" || op == "fdim";
+        const bool has_imm = op == "ipow";
+        const bool loops = (f && (f->flags & mfn::LOOPS)) || op == "ipow" || op == "s_tgamma" || op == "s_lgamma";
+        for (auto& tg : g_targets)
+        {
+            const xsv_entry* e = tg.find(op, prec<T>::tn);
+            if (!e)
+                continue;
+            if ((int)(item++ % (size_t)cx.opt.nworkers) != cx.opt.worker)
+                continue;
+            cx.st.per_target[tg.name]++;
+            const int n = e->lanes;
+            T xs[64], ys[64];
+            std::vector<int64_t> imms = { 0 };
+            if (has_imm)
+                imms = { 0, 1, -1, 2, 3, 7, 64, 1000, 65535, 0x7fffffff, -0x7fffffffLL - 1, -0x7fffffff, 0x55555555, 0x40000000 };
+            for (int64_t imm : imms)
+            {
+                // (a) extremes: neighbour layout (consecutive extremes), then each extreme among companions
+                for (size_t b = 0; b < ext.size(); b += n)
+                {
+                    for (int l = 0; l < n; ++l)
+                    {
+                        xs[l] = ext[(b + l) % ext.size()];
+                        ys[l] = ext[(b * 7 + l * 3 + 1) % ext.size()];
+                    }
+                    cx.st.evaluations++;
+                    ++nontriv;
+                    c14_call<T>(cx, tg, e, xs, binary ? ys : nullptr, imm, "extreme values, neighbour layout");
+                }
+                for (size_t i = 0; i < ext.size(); i += (loops ? 1 : 3))
+                {
+                    for (int l = 0; l < n; ++l)
+                    {
+                        xs[l] = comp_raw[(i + l) % 12];
+                        ys[l] = comp_raw[(i * 5 + l) % 12];
+                    }
+                    xs[i % n] = ext[i];
+                    ys[(i + 1) % n] = ext[(i * 3) % ext.size()];
+                    cx.st.evaluations++;
+                    ++nontriv;
+                    c14_call<T>(cx, tg, e, xs, binary ? ys : nullptr, imm, "extreme value among ordinary companions");
+                }
+            }
+            // (b) float32: strided sweep of all bit patterns for the functions that contain loops (thorough: all)
+            if (sizeof(T) == 4 && !binary && !has_imm)
+            {
+                const uint64_t stride = thorough ? (loops ? 1 : 64) : (loops ? 1021 : 65521);
+                const uint64_t phase = mix64(cx.opt.seed ^ hash_str(op)) % stride;
+                for (uint64_t u = phase; u < (1ull << 32); u += stride * n)
+                {
+                    for (int l = 0; l < n; ++l)
+                    {
+                        uint32_t w = (uint32_t)(u + (uint64_t)l * stride);
+                        memcpy(&xs[l], &w, 4);
+                    }
+                    cx.st.evaluations++;
+                    if (!c14_call<T>(cx, tg, e, xs, nullptr, 0, "float32 sweep"))
+                        break;
+                }
+            }
+            // (c) rapidcheck: arbitrary bit patterns in every lane (companions on both sides of every threshold)
+            rc::detail::TestParams params = rc::detail::configuration().testParams;
+            params.seed = mix64(params.seed ^ hash_str(op, sizeof(T)) ^ hash_str(tg.name));
+            params.maxSuccess = (int)std::max<long>(1, cx.opt.budget);
+            rc::detail::TestMetadata md;
+            md.id = op + ":" + prec<T>::tn + ":" + tg.name;
+            rc::detail::checkTestable(
+                [&]() {
+                    auto bits = *rc::gen::container<std::vector<uint64_t>>((size_t)(2 * n), rc::gen::arbitrary<uint64_t>());
+                    const int mode = *rc::gen::resize(100, rc::gen::inRange<int>(0, 3));
+                    for (int l = 0; l < n; ++l)
+                    {
+                        uint64_t a = mix64(bits[l]), b = mix64(bits[n + l]);
+                        if (mode == 0)
+                        {
+                            memcpy(&xs[l], &a, sizeof(T));
+                            memcpy(&ys[l], &b, sizeof(T));
+                        }
+                        else if (mode == 1)
+                        {
+                            xs[l] = (T)((double)(int64_t)(a % 2000001) / 1000.0 - 1000.0);
+                            ys[l] = (T)((double)(int64_t)(b % 2001) - 1000.0);
+                        }
+                        else
+                        {
+                            xs[l] = ext[a % ext.size()];
+                            ys[l] = ext[b % ext.size()];
+                        }
+                    }
+                    const int64_t imm = has_imm ? (int64_t)(int32_t)(uint32_t)mix64(bits[0] ^ 99) : 0;
+                    cx.st.evaluations++;
+                    cx.st.note_distinct(hash_bytes(xs, sizeof(T) * n, hash_bytes(ys, sizeof(T) * n, hash_str(op))));
+                    RC_ASSERT(c14_call<T>(cx, tg, e, xs, binary ? ys : nullptr, imm, "rapidcheck lanes"));
+                },
+                md, params);
+        }
+        cx.write_out();
+    }
+    cx.st.distinct_extra += nontriv;
+    cx.st.nontrivial_cases += nontriv;
+}
+
+static void run_c14(Context& cx)
+{
+    c14_type<float>(cx);
+    c14_type<double>(cx);
+    cx.st.maxv("max_loop_iterations_observed_in_one_call (bound 512)", (double)g_c14_maxticks, "any function");
+    cx.st.samples.push_back("{\"layout\":\"extreme value among ordinary companions\",\"example\":\"tgamma(batch{0.3,2,50,-1e9,...}) loop iterations <= 512\"}");
+}
+
+template <class T>
+static bool c14_replay(Context& cx, const std::string&, const Target& tg, const xsv_entry* e, const T* xs, const T* ys)
+{
+    const std::string op = e->op;
+    const bool binary = op == "pow" || op == "atan2" || op == "hypot" || op == "fmod" || op == "remainder" || op == "fdim";
+    return c14_call<T>(cx, tg, e, xs, binary ? ys : nullptr, atoll(cx.opt.replay[3].c_str()), "replay");
+}
